@@ -340,14 +340,127 @@ func run(c *harness.Ctx) harness.Result {
 
 var _ = bytes.NewBuffer
 
+// ---- the same through the real driver: pprof -symbolize=<mode> -proto with the scripted tools ----
+
+func lineSig(l *profile.Location) string {
+	var sb strings.Builder
+	for _, ln := range l.Line {
+		if ln.Function == nil {
+			fmt.Fprintf(&sb, "{nil %d:%d}", ln.Line, ln.Column)
+			continue
+		}
+		// the display name is left out: demangling rewrites it in every mode
+		fmt.Fprintf(&sb, "{%q %q %d %d:%d}", ln.Function.SystemName, ln.Function.Filename, ln.Function.StartLine, ln.Line, ln.Column)
+	}
+	return sb.String()
+}
+
+// frame condition across a save: as snap, without the attributes the driver may legitimately fill
+// in from the binaries it opens (mapping file path and build id)
+func snapSaved(p *profile.Profile) string {
+	var sb strings.Builder
+	for _, s := range p.Sample {
+		fmt.Fprintf(&sb, "S %v %v %v %v [", s.Value, s.Label, s.NumLabel, s.NumUnit)
+		for _, l := range s.Location {
+			fmt.Fprintf(&sb, "%d@%x ", l.ID, l.Address)
+		}
+		sb.WriteString("]\n")
+	}
+	for _, m := range p.Mapping {
+		fmt.Fprintf(&sb, "M %d %x %x %x\n", m.ID, m.Start, m.Limit, m.Offset)
+	}
+	for _, l := range p.Location {
+		mid := uint64(0)
+		if l.Mapping != nil {
+			mid = l.Mapping.ID
+		}
+		fmt.Fprintf(&sb, "L %d %x m%d\n", l.ID, l.Address, mid)
+	}
+	fmt.Fprintf(&sb, "T %d", len(p.SampleType))
+	return sb.String()
+}
+
+func runDriver(c *harness.Ctx) harness.Result {
+	seed := c.Rng.Int63()
+	mode := modes[c.Rng.Intn(len(modes))]
+	r := rand.New(rand.NewSource(seed))
+	p := genProfile(r)
+	// what cannot be saved is not part of the comparison (C01): take the profile after one codec trip
+	var b0 bytes.Buffer
+	p.WriteUncompressed(&b0)
+	p, err := profile.ParseUncompressed(b0.Bytes())
+	if err != nil {
+		return harness.Result{Verdict: harness.Inconclusive, Detail: "generator: " + err.Error()}
+	}
+	failAt := 0
+	if c.Rng.Intn(2) == 0 {
+		failAt = 1 + c.Rng.Intn(12)
+	}
+	sc := &script{r: rand.New(rand.NewSource(seed ^ 0x5bd1e995)), failAt: failAt}
+	ui := &drv.UI{}
+	src := "http://host/debug/pprof/profile"
+	drv.IsolateEnv(c.Tmp)
+	sesn := &drv.Session{Flags: &drv.Flags{Bools: map[string]bool{"proto": true, "addresses": true, "flat": true}, Strs: map[string]string{"output": "out", "symbolize": mode}, Args: []string{src}},
+		Fetch: &drv.MapFetcher{Profiles: map[string]*profile.Profile{src: p.Copy()}}, Obj: sc, Sym: &symbolizer.Symbolizer{Obj: sc, UI: ui, Transport: sc}, UI: ui}
+	rr := sesn.Run()
+	ctx := fmt.Sprintf("pprof -symbolize=%q -proto, failAt=%d calls=%v", mode, failAt, sc.log)
+	res := harness.Result{NonTrivial: sc.calls > 0, Sig: fmt.Sprintf("driver %s/%d/%d", mode, sc.calls, seed), Sample: map[string]any{"mode": mode, "plugin_calls": sc.calls, "via": "driver"}}
+	c.Stat("driver_runs", 1)
+	if rr.Panic != "" {
+		return harness.Violation("%s: panic: %s", ctx, rr.Panic)
+	}
+	if rr.Err != nil {
+		c.Stat("driver_errors", 1)
+		return res // reported as an error (unknown mode, ...): nothing was saved
+	}
+	bf := sesn.Writer.Files["out"]
+	if bf == nil {
+		return harness.Violation("%s: no output and no error", ctx)
+	}
+	q, err := profile.ParseData(bf.Bytes())
+	if err != nil {
+		return harness.Violation("%s: saved profile unparseable: %v", ctx, err)
+	}
+	if a, b := snapSaved(p), snapSaved(q); a != b {
+		return harness.Violation("%s: the saved profile differs from the input in samples, values, labels, stack depth, addresses or mapping ranges\nbefore:\n%s\nafter:\n%s", ctx, a, b)
+	}
+	if e := mon.Valid(q); e != nil {
+		return harness.Violation("%s: saved profile invalid: %v", ctx, e)
+	}
+	force := strings.Contains(mode, "force") || strings.Contains(mode, "demangle=full") || strings.Contains(mode, "demangle=none") || strings.Contains(mode, "demangle=templates")
+	byID := map[uint64]*profile.Location{}
+	for _, l := range q.Location {
+		byID[l.ID] = l
+	}
+	if !force {
+		for _, l := range p.Location {
+			if l.Mapping != nil && l.Mapping.HasFunctions {
+				if g := byID[l.ID]; g == nil || lineSig(g) != lineSig(l) {
+					return harness.Violation("%s: location %d belongs to a mapping that already had symbols (has_functions) and force was not requested, but its lines changed from %s to %s", ctx, l.ID, lineSig(l), lineSig(g))
+				}
+			}
+		}
+	}
+	fnBefore := map[uint64]string{}
+	for _, f := range p.Function {
+		fnBefore[f.ID] = f.Name
+	}
+	for _, f := range q.Function {
+		if old, ok := fnBefore[f.ID]; ok && old != "" && f.Name == "" {
+			return harness.Violation("%s: function %d name %q was replaced by an empty name", ctx, f.ID, old)
+		}
+	}
+	return res
+}
+
 func init() {
 	harness.Register(&harness.Check{
 		ID:    "C12",
 		Level: "fault_enumeration",
 		Rule: "partly symbolized profiles (sparse and colliding function ids incl. id == len+1, several mappings incl. fake/vdso/http ones and two mappings reported at the same address range, unmapped locations whose address equals a mapped one, addresses at mapping edges, folded locations) x 16 mode strings (local, fastlocal, remote, none, force, demangle=*, combinations, unknown) x scripted ObjTool and symbolz endpoint answering deterministically from a seed: open failure, wrong/equal build id, empty/error/1-3 inline frames with hostile names, HTTP 500, empty, garbage, partial answers, extra addresses, overflowing addresses, adjusted source offsets; then the same run repeated with a failure injected at EVERY call index 1..N of the scripted sequence. " +
-			"oracle: snapshot frame condition (samples, values, labels, stack depth and order, location addresses, mapping ranges unchanged), independent validity + unique ids, lines of has_functions mappings untouched unless force, no non-empty name becomes empty. non-trivial = the plug-ins were called at least once; distinct = (mode, scripted sequence)",
+			"part driver: the same profiles, modes and scripted tools through the real driver (pprof -symbolize=<mode> -proto <source>, optional failure at a random call index): the saved profile is compared with the input by the same rules (mapping file path and build id excepted, which the driver fills in from the binaries it opens). oracle: snapshot frame condition (samples, values, labels, stack depth and order, location addresses, mapping ranges unchanged), independent validity + unique ids, lines of has_functions mappings untouched unless force, no non-empty name becomes empty. non-trivial = the plug-ins were called at least once; distinct = (mode, scripted sequence)",
 		Assumptions:   []string{"function ids below 2^62 (new ids are allocated above the largest one)", "fail-at-call-k is exhaustive over the calls of each scripted sequence; the sequences themselves are sampled"},
-		Parts:         []harness.Part{{Name: "symbolize", Quick: 6000, Thor: 300000, Run: run}},
+		Parts:         []harness.Part{{Name: "symbolize", Quick: 6000, Thor: 300000, Run: run}, {Name: "driver", Quick: 1500, Thor: 60000, Run: runDriver}},
 		MinNonTrivial: func(string) int { return 50 },
 		Finish: func(tier string, st map[string]int64) string {
 			if st["fault_points"] < 1000 {
